@@ -3,23 +3,32 @@ From Coq Require Import List Arith Bool Lia.
 Import ListNotations.
 From TV Require Import C40.Model C40.Proofs C40.Proofs2 C40.Proofs5.
 
+Local Arguments dist : simpl never.
+
 Lemma dist_sel : forall k f s l s', Inv s -> live k f s -> step_sel s l = Some s' ->
   live k f s' /\ dist k f s' + 1 <= dist k f s.
 Proof.
   intros k f s l s' I (F0 & FR & FY & FC) H.
   pose proof (I_tok s I) as Itok. pose proof (I_closing s I) as Icl. pose proof (I_exit s I) as Iex.
   pose proof (I_spawn1 s I) as Isp1.
-  open_state s. unfold live, dist, nregs, tokens, tok_args, tok_sel, tok_loop, spawned in *. simpl in *.
+  open_state s. unfold live, tokens, tok_args, tok_sel, tok_loop, spawned in *. simpl in *.
   assert (CF : closing0 = false) by (rewrite Icl; destruct lp0; simpl in *; congruence).
   subst closing0.
   destruct l; simpl in H; try discriminate; unfold must_wait, lock_free in H; simpl in H; break H; fin; simpl.
   all: try (split; [repeat split; assumption|]).
-  all: destruct lp0; simpl in *; try discriminate; try lia.
-  all: destruct args0 as [[? ?]|]; simpl in *; try lia.
-  all: destruct queue0 as [|[? ?] ?]; simpl in *; try lia.
+  all: try (discriminate (Iex (or_introl eq_refl))).
+  all: destruct lp0; simpl in *; try discriminate.
+  all: try (discriminate (Isp1 eq_refl)).
+  all: unfold dist, nregs, has_dead in *; simpl in *; try lia.
+  all: try (destruct args0 as [[? ?]|]); simpl in *; try lia.
+  all: try (destruct queue0 as [|[? ?] ?]); simpl in *; try lia.
   all: try (discriminate (Iex (or_introl eq_refl))).
   all: try (discriminate (Isp1 eq_refl)).
   all: boolp; try match goal with E : (_, _) = (_, _) |- _ => inversion E; subst end.
+  all: repeat match goal with
+       | H : existsb _ _ = false |- _ => rewrite ?H; clear H
+       | H : existsb _ _ = true |- _ => rewrite ?H; clear H
+       end; simpl; rewrite ?andb_false_r, ?andb_true_r.
   all: try (split_ifs; lia).
   all: subst; rewrite ?app_nil_r; unfold slen, inl in *; simpl in *.
   all: repeat match goal with
